@@ -1,4 +1,5 @@
 import HpxVerif.Model.Topo
+import HpxVerif.Lemmas.TopoGen
 import HpxVerif.Gen.Consts
 
 /-!
@@ -60,5 +61,20 @@ def edgeOk (h dd : Nat) : Bool :=
 theorem internal_edge_small_delta_test :
     ∀ dd, dd < 6 → dd = 0 ∨ (edgeOk 0 dd && edgeOk 7 dd && edgeOk 191 dd) = true := by
   decide +kernel
+
+/-! ## the direction tables of the model are the tables of the source (regenerated on every run) -/
+
+/-- `lib::direction_from_neighbour` and `lib::edge_cell_direction_from_neighbour` (the rotated frames of the polar-cap
+    seams, panicking entries included) equal, entry by entry, what the translator tabulates from `src/lib.rs` -/
+theorem direction_tables_from_source :
+    (∀ b, b < 12 → ∀ w : MW,
+      directionFromNeighbour b w = ((TopoGen.lk2 Gen.directionFromNeighbour b w.index).bind id).bind MW.ofIndex) ∧
+    (∀ b, b < 12 → ∀ inner nd : MW,
+      edgeCellDirectionFromNeighbour b inner nd =
+        ((TopoGen.lk3 Gen.edgeCellDirectionFromNeighbour b inner.index nd.index).bind id).bind MW.ofIndex) :=
+  ⟨TopoGen.direction_from_neighbour, TopoGen.edge_cell_direction_from_neighbour⟩
+
+theorem seam_rules_from_source : ∀ b, b < 12 → ∀ w : MW, w ≠ .C →
+    seamRule b w = TopoGen.decodeSeam ((TopoGen.lk2 Gen.seamRules b w.index).bind id) := TopoGen.seam_rules
 
 end Hpx.C14
